@@ -37,6 +37,14 @@ Proof.
 Qed.
 
 (* ---------- the three outcomes ---------- *)
+Lemma finish_ok ver p fl0 s fl e :
+  match finish ver p fl0 s with FullOk fl' e' => UOk fl' e' | FullErr _ _ => UErr end = UOk fl e ->
+  fl = fl0 /\ e = s.
+Proof.
+  unfold finish. destruct (check_fields_class ver p s); try discriminate.
+  intro H. inversion H. auto.
+Qed.
+
 Theorem mismatch_yields_redacted ver j fl e :
   parse_untrusted ver j false = UOk fl e ->
   fl = true /\ redact ver (strip ver j) = Some e /\
@@ -46,13 +54,13 @@ Theorem mismatch_yields_redacted ver j fl e :
     assoc_first content_key out = Some cj /\
     (cj = JNull \/ exists c, cj = JObj c /\ forall k, In k (keys_of c) -> listed a ty k).
 Proof.
-  unfold parse_untrusted, strip.
+  unfold parse_untrusted, parse_untrusted_full, strip.
   destruct (parser_of_version ver) as [[p fn]|]; [|discriminate].
   destruct (has_underscore_key j); [discriminate|].
-  destruct (negb (parse_checks p (strip_with (strip_keys fn) j))); [discriminate|].
+  destruct (parse_class p (strip_with (strip_keys fn) j)); try discriminate.
   destruct (redact ver (strip_with (strip_keys fn) j)) as [r|] eqn:Hr; [|discriminate].
-  destruct (parse_checks p r && check_fields ver p r); [|discriminate].
-  intro H. inversion H; subst. split; [reflexivity|]. split; [reflexivity|].
+  destruct (parse_class p r); try discriminate.
+  intro H. apply finish_ok in H as [Hfl He]. subst. split; [reflexivity|]. split; [reflexivity|].
   unfold redact in Hr. destruct (algo_of_version ver) as [a|] eqn:Ha; [|discriminate].
   destruct (redact_alg_output a _ _ (algo_of_version_ok ver a Ha) Hr) as (out & ty & cj & H1 & H2 & H3 & H4 & H5).
   exists a, out, ty, cj. split; [reflexivity|]. split; [exact H1|]. split; [exact H2|]. split; [exact H3|]. split; [exact H4|exact H5].
@@ -61,12 +69,12 @@ Qed.
 Theorem match_yields_intact ver j fl e :
   parse_untrusted ver j true = UOk fl e -> fl = false /\ e = strip ver j.
 Proof.
-  unfold parse_untrusted, strip.
+  unfold parse_untrusted, parse_untrusted_full, strip.
   destruct (parser_of_version ver) as [[p fn]|]; [|discriminate].
   destruct (has_underscore_key j); [discriminate|].
-  destruct (negb (parse_checks p (strip_with (strip_keys fn) j))); [discriminate|].
-  destruct (check_fields ver p (strip_with (strip_keys fn) j)); [|discriminate].
-  intro H. inversion H. auto.
+  destruct (parse_class p (strip_with (strip_keys fn) j)); try discriminate.
+  destruct (redact ver (strip_with (strip_keys fn) j)) as [r|]; [|discriminate].
+  intro H. apply finish_ok in H. exact H.
 Qed.
 
 (* events that agree on every kept top-level key and on the kept part of the content *)
